@@ -17,6 +17,7 @@ FUNCS = ['SU_vector::GetGSLMatrix (SUToMatrixN kernels)', 'SU_vector::SU_vector(
          'operator+= -= *= /=', 'SU_vector::Transpose', 'SU_vector::Real', 'SU_vector::Imag', 'SU_vector::operator==',
          'AdditionProxy/SubtractionProxy/NegationProxy/MultiplicationProxy::compute', 'SU_vector::assignProxy', 'SU_vector::operator=(const SU_vector&)']
 OPS = {0: 'A+B', 1: 'A-B', 2: '-A', 3: 'A*s', 4: 's*A', 5: 'A+=B', 6: 'A-=B', 7: 'A*=s', 8: 'A/=s', 9: 'Transpose', 10: 'Real', 11: 'Imag'}
+XOPN = {12: 'A+=B*s', 13: 'A-=s*B', 14: 'A+=A*s', 15: 'A-=s*A', 16: 'A+=A+B', 17: 'A-=A-B', 18: 'A=A+B', 19: 'A=B-A', 20: 'A=-A', 21: 'A=A*s'}
 
 
 def work(item):
@@ -245,6 +246,45 @@ def work(item):
                     5: lambda k: pa[k] + pb[k], 6: lambda k: pa[k] - pb[k], 7: lambda k: pa[k] * psc}.get(op)
         if comp_ref is not None:
             dec.decide('%s component-wise exactly, d=%d' % (nm, d), [po[k] - comp_ref(k) for k in range(n)], 'linop:%s:d=%d' % (nm, d), dict(kind='linop', d=d, op=op), res=zero)
+    # ---- 5b. compound assignment from expressions and expressions assigned onto their own operand: component formulas, every branch
+    XOPS = {12: ('A+=B*s', lambda k: T.fadd(a[k], T.fmul(b[k], s))), 13: ('A-=s*B', lambda k: T.fsub(a[k], T.fmul(b[k], s))),
+            14: ('A+=A*s', lambda k: T.fadd(a[k], T.fmul(a[k], s))), 15: ('A-=s*A', lambda k: T.fsub(a[k], T.fmul(a[k], s))),
+            16: ('A+=A+B', lambda k: T.fadd(a[k], T.fadd(a[k], b[k]))), 17: ('A-=A-B', lambda k: T.fsub(a[k], T.fsub(a[k], b[k]))),
+            18: ('A=A+B', lambda k: T.fadd(a[k], b[k])), 19: ('A=B-A', lambda k: T.fsub(b[k], a[k])), 20: ('A=-A', lambda k: T.fsub(Fraction(0), a[k])),
+            21: ('A=A*s', lambda k: T.fmul(a[k], s))}
+    pins = [T.fcmp('oeq', s, Fraction(37, 100))] + [T.fcmp('oeq', a[k], Fraction(5 + 2 * k, 31)) for k in range(n)] + [T.fcmp('oeq', b[k], Fraction(7 + 3 * k, 37)) for k in range(n)]
+    for op, (nm, rf) in XOPS.items():
+        ps = h.run('h_linop', [I(op), I(d), Buf('a', a), Buf('b', b), D(s), Buf('o', n=n)])
+        exstats.append(h.last_ex.stats)
+        if not ps or not all(p_.status == 'ok' and p_.ret == 0 for p_ in ps):
+            out['broken'].append('h_linop %s d=%d: %r' % (nm, d, [(p_.status, p_.ret, p_.info) for p_ in ps]))
+            continue
+        refs = [rf(k) for k in range(n)]
+        gen = [p_ for p_ in ps if len(ps) == 1 or solver.check(p_.pc + pins) == 'sat'][:1]
+        if not gen:
+            out['broken'].append('h_linop %s d=%d: no branch accepts generic arguments' % (nm, d))
+            continue
+        for p_ in ps:
+            o = p_.out('o')
+            if any(v is None for v in o):
+                dec.candidate('linop:%s:d=%d' % (nm, d), '%s leaves a component unwritten' % nm, kind='linop', d=d, op=op)
+                continue
+            if p_ is gen[0]:
+                dec.decide('%s component-wise exactly, d=%d' % (nm, d), [ctx.poly(o[k]) - ctx.poly(refs[k]) for k in range(n)], 'linop:%s:d=%d' % (nm, d), dict(kind='linop', d=d, op=op), res=zero)
+                continue
+            # a branch taken only for special argument values: direct query under its branch condition
+            conv = S.Conv('real')
+            cl = [(conv.conv(o[k]) if isinstance(o[k], Term) else conv.rconst(o[k])) != conv.conv(refs[k]) for k in range(n)]
+            br = ' & '.join(T.show(c_, 3) for c_ in p_.pc)[:120]
+            r_, m_, _ = solver.check(p_.pc, conv=conv, extra=[z3.Or(cl)], want_model=True, label='%s on the special branch (%s) gives the component formula, d=%d' % (nm, br[:80], d))
+            if r_ == 'unsat':
+                dec.holds('%s: special branch (%s) agrees with the component formula, d=%d' % (nm, br[:60], d))
+            elif r_ == 'sat':
+                names = ['a%d' % k for k in range(n)] + ['b%d' % k for k in range(n)] + ['s']
+                dec.candidate('linop:%s:d=%d' % (nm, d), 'on the branch %s, %s does not give the component formula' % (br, nm), kind='linop', d=d, op=op,
+                              input={nm_: frac_str(S.model_value(m_, conv, nm_)) for nm_ in names if nm_ in conv.vars})
+            else:
+                out['undecided'].append('%s special branch d=%d' % (nm, d))
     # ---- 6. equality
     for d2 in range(2, 7):
         n2 = d2 * d2
@@ -315,6 +355,11 @@ def replay(chk, h, c):
         v = rng.uniform(-1, 1, n)
         w = rng.uniform(-1, 1, n)
         sc = float(rng.uniform(0.5, 2))
+        if trial == 0 and c.get('input'):
+            inp = {k_: float(Fraction(x_)) for k_, x_ in c['input'].items()}
+            v = np.array([inp.get('a%d' % k_, v[k_]) for k_ in range(n)])
+            w = np.array([inp.get('b%d' % k_, w[k_]) for k_ in range(n)])
+            sc = inp.get('s', sc)
         if kind in ('basis', 'hermitian', 'rt-matrix'):
             M = native_s2m(v)
             worst = max(worst, np.abs(M - npmat(v)).max(), np.abs(M - M.conj().T).max())
@@ -340,7 +385,8 @@ def replay(chk, h, c):
             op = c['op']
             ret, o = h.native('h_linop', [I(op), I(d), Buf('a', v), Buf('b', w), D(sc), Buf('o', [np.nan] * n)])
             A, B = npmat(v), npmat(w)
-            ref = {0: A + B, 1: A - B, 2: -A, 3: A * sc, 4: A * sc, 5: A + B, 6: A - B, 7: A * sc, 8: A / sc, 9: A.T, 10: A.real + 0j, 11: 1j * A.imag}[op]
+            ref = {0: A + B, 1: A - B, 2: -A, 3: A * sc, 4: A * sc, 5: A + B, 6: A - B, 7: A * sc, 8: A / sc, 9: A.T, 10: A.real + 0j, 11: 1j * A.imag,
+                   12: A + B * sc, 13: A - B * sc, 14: A + A * sc, 15: A - A * sc, 16: 2 * A + B, 17: B, 18: A + B, 19: B - A, 20: -A, 21: A * sc}[op]
             if any(x != x for x in o['o']):
                 worst = float('inf')
             else:
@@ -397,7 +443,7 @@ def main(tier):
         cases.append(('h_s2m', [I(d), Buf('a', v), Buf('re', n=n), Buf('im', n=n)], ['re', 'im']))
         cases.append(('h_m2s', [I(d), Buf('re', v), Buf('im', w), Buf('o', n=n)], ['o']))
         cases.append(('h_components', [I(d), Buf('a', v), Buf('o', n=n)], ['o']))
-        for op in OPS:
+        for op in list(OPS) + list(XOPN):
             cases.append(('h_linop', [I(op), I(d), Buf('a', v), Buf('b', w), D(1.7), Buf('o', n=n)], ['o']))
     generic_interp_vs_native(chk, h, cases)
     with Pool(min(5, os.cpu_count() or 1)) as pool:
